@@ -128,6 +128,13 @@ class Env:
 
     # -- objects from names
     def cat(self, name):
+        if name.startswith("user:"):
+            if name not in self.fresh:
+                import re
+
+                entries = [re.compile(e[3:]) if e.startswith("re:") else e for e in rd.USER_CATS[name][0]]
+                self.fresh[name] = type(self.jt.AbstractDtype)("U" + name[5:], (self.jt.AbstractDtype,), dict(dtypes=entries if len(entries) > 1 else entries[0]))
+            return self.fresh[name]
         return getattr(self.jt, name)
 
     def atom(self, name):
@@ -408,7 +415,7 @@ def space(tier):
         groups.append(n3[i : i + 512])
     un = [("union", (d, mi, s, sp)) for d in cats for mi in range(len(UNION_MEMBERS)) for s in DIMS_SCALAR for sp in ("Union", "|")]
     tv = [("typevar", (d, ti, s)) for d in cats for ti in range(len(TYPEVARS)) for s in DIMS_SCALAR]
-    sc = [("scalar", (d, t, s)) for d in rd.CATS16 for t in SCALARS for s in DIMS_SCALAR]
+    sc = [("scalar", (d, t, s)) for d in rd.CATS16 + list(rd.USER_CATS) for t in SCALARS for s in DIMS_SCALAR]
     for lst in (un, tv, sc):
         for i in range(0, len(lst), 160):
             groups.append(lst[i : i + 160])
